@@ -184,8 +184,7 @@ Definition known_class (c : case) : Z :=
         (if negb (keyed sch) then 1 else if int_pk sch then 8 else 9)
       else if keyed sch && existsb is_kupd m then
         (if int_pk sch then 2 else 10)
-      else if int_pk sch && s_sec sch && existsb is_write m then 3
-      else if int_pk sch && existsb is_upd m && existsb is_del p then 4
+      else if s_sec sch && (existsb is_upd1 m || (int_pk sch && existsb is_write m)) then 3
       else if partial_ins m (skipn (length p) rb) then 5
       else if int_pk sch && existsb is_ins m
               && (existsb is_kupd (p ++ t) || existsb is_undo (p ++ t)) then 7
